@@ -27,6 +27,9 @@ def fault_scripts(proto, tr):
         out += [("C2", ["R", "R", "T", "Fe"]), ("C2", ["R", "R", "T", "T", "T", "Fd"])]
     if tr in ("duplex", "dtls"):
         out += [("X", []), ("X", []), ("X", [])]                      # connect queued, then cancelled
+    if tr in ("tcp", "unix"):
+        # connected at transport level, then reset (Cr) / closed (Cf) while still in the listen backlog
+        out += [("Cr", []), ("Cr", []), ("Cf", []), ("Cr", [])]
     if tr == "unix" and proto != "h2":     # the odd-path client of the harness speaks HTTP/1
         out += [("U", FULL), ("U", ["Fd"])]                           # peer bound to a non-UTF-8 path
     return out
@@ -41,7 +44,7 @@ class C09(ServerPlugin):
             "event list interleaving per-connection faults (cancelled connect, immediate disconnect, garbage bytes = failed "
             "TLS handshake under TLS, silent client = stalled handshake, truncated head / body, disconnect in handler / mid "
             "response, handler error, unix peer with a non-UTF-8 path, clients asking for a zero-capacity stream) with "
-            "well-behaved connections, then a fresh probe client; server buffer cap and client buffer sizes vary as hidden "
+            "tcp / unix clients reset or closed while still in the listen backlog, well-behaved connections, then a fresh probe client; server buffer cap and client buffer sizes vary as hidden "
             "variation; a panic of the serving future is logged as its end); per stretch between quiescent points the multiset of observable events is compared with the model and "
             "mon_C09 judges the implementation's log; non-trivial = at least one request, fault or cancelled connect; "
             "distinct = distinct case lines")
@@ -87,7 +90,7 @@ class C09(ServerPlugin):
             s2 = []
             for t in seq:
                 s2.append(t)
-                if t[0] in KINDS:
+                if t[0] in KINDS and t[0] not in ("Cr", "Cf"):
                     s2.append(("S", None))
             seq = s2
         else:
@@ -122,7 +125,7 @@ class C09(ServerPlugin):
                 for tr in ("duplex", "dtls", "unix", "tcp"):
                     scripts = fault_scripts(proto, tr)
                     if tr == "tcp":
-                        scripts = scripts[:: 3] if mode == "p" else scripts[1:: 5]
+                        scripts = scripts[:: 4] if mode == "p" else scripts[1:: 7]
                     if tr == "unix" and mode == "g":
                         scripts = (scripts[-2:] if proto != "h2" else []) + scripts[:: 4]
                     pk = "C2" if proto == "h2" else "C1"
@@ -139,6 +142,20 @@ class C09(ServerPlugin):
                             continue
                         e = [ck, "S"] + [f"{t}0" for t in evs] + [pk, "S"] + [f"{t}1" for t in FULL] + ["S"]
                         cases.append({"mode": mode, "proto": proto, "tr": tr, "evs": e})
+        # tcp / unix: clients that are gone (reset / closed) before the server accepts them: alone, in a burst,
+        # while an exchange is in flight, mixed with good clients waiting in the same backlog
+        for mode in ("p", "g"):
+            for proto, pk in (("h1", "C1"), ("h2", "C2"), ("auto", "C1")):
+                for tr in ("tcp", "unix"):
+                    for dead in ("Cr", "Cf"):
+                        shapes = [[dead, "S", pk, "S"] + [f"{t}1" for t in FULL] + ["S"]]
+                        if tr == "unix" or (mode == "p" and dead == "Cr"):
+                            shapes += [[dead, dead, "Cr", pk, "S"] + [f"{t}3" for t in FULL] + ["S"],
+                                       [pk, "S", "R0", "T0", dead, "Cr", "S", "T0", "T0", pk, "S"] + [f"{t}3" for t in FULL] + ["S"]]
+                        if tr == "unix":
+                            shapes += [["S", dead, pk, dead, "S"] + [f"{t}1" for t in FULL] + [pk, "S"] + [f"{t}3" for t in FULL] + ["S"]]
+                        for e in shapes:
+                            cases.append({"mode": mode, "proto": proto, "tr": tr, "evs": e})
         # what the model abstracts from: the server-side buffer cap and the buffer size a client asks for
         # (a zero-capacity stream is that client's own problem); fault and probe under every combination
         for mode in ("p", "g"):
@@ -162,7 +179,7 @@ class C09(ServerPlugin):
         for _ in range(n):
             proto = rng.choice(["h1", "h2", "auto"])
             x = rng.random()
-            tr = "duplex" if x < 0.68 else "dtls" if x < 0.92 else "unix" if x < 0.98 else "tcp"
+            tr = "duplex" if x < 0.68 else "dtls" if x < 0.92 else "unix" if x < 0.988 else "tcp"
             mode = rng.choice(["p", "p", "g"])
             nf, ng = rng.choice([1, 1, 2, 2, 3, 4, 6]), rng.choice([0, 1, 1, 2, 3])
             if tr == "tcp":
